@@ -30,7 +30,15 @@ def _returns_all_qubits(ix, cls, name) -> bool:
     if m is None:
         return False
     rets = [st for st in iter_stmts(m.body) if isinstance(st, ast.Return) and st.value is not None]
-    return bool(rets) and all(isinstance(r.value, ast.Attribute) and r.value.attr == "all_qubits" for r in rets)
+    if not (rets and all(isinstance(r.value, ast.Attribute) and r.value.attr == "all_qubits" for r in rets)):
+        return False
+    # a raising guard in the accessor may only fire when the table is missing (`is None`)
+    for st in iter_stmts(m.body):
+        if isinstance(st, ast.If) and any(isinstance(x, ast.Raise) for x in st.body):
+            t = st.test
+            if not (isinstance(t, ast.Compare) and len(t.ops) == 1 and isinstance(t.ops[0], ast.Is) and isinstance(t.comparators[0], ast.Constant) and t.comparators[0].value is None):
+                return False
+    return True
 
 
 def run(ctx, rep):
@@ -95,6 +103,20 @@ def run(ctx, rep):
             rep.ok("C13.1", cons, "`if obj.subcircuit:` merges all qubits (the implicit prepare_all/measure_all)", f"{bh_.path}:{hit.lineno}")
         else:
             rep.violation("C13.1", cons, "a subcircuit block is analysed like a plain block: `subcircuit { Px q[1] }` reports only qubit 1 although the block prepares and measures every qubit (its spelled-out form reports all of them)", bh_.loc(), witness="register q[3]\nsubcircuit { Px q[1] }")
+
+    # every merge accumulates INTO a table created in the handler (never into visitor state or an argument)
+    for vis_ in family:
+        for mname, fi in ix.classes[vis_].methods.items():
+            if not mname.startswith("visit_"):
+                continue
+            local_tables = {t.id for st in iter_stmts(fi.body) if isinstance(st, ast.Assign) and isinstance(st.value, ast.Call) and isinstance(st.value.func, ast.Name) and st.value.func.id in ("defaultdict", "dict") for t in st.targets if isinstance(t, ast.Name)}
+            for n in walk_no_nested(fi.node):
+                if isinstance(n, ast.Call) and isinstance(n.func, ast.Attribute) and n.func.attr == "merge_into" and n.args:
+                    cons = construct_of(fi, f"merge-target:{ast.unparse(n.args[0])[:30]}")
+                    if isinstance(n.args[0], ast.Name) and n.args[0].id in local_tables:
+                        rep.ok("C13.1", cons, "merges into the handler's own table", f"{fi.path}:{n.lineno}")
+                    else:
+                        rep.violation("C13.1", cons, f"`{ast.unparse(n)[:70]}` merges into something that is not the handler's own result table: the visitor's state (e.g. the all-qubits table) is changed and the handler's result misses the qubits", f"{fi.path}:{n.lineno}")
 
     # ------------------------------------------------------------ C13.2
     rep.rule("C13.2", "the collision test follows the block kind and the intersection of the two index sets", floor=2)
@@ -311,6 +333,16 @@ def run(ctx, rep):
                     n_res += 1
                     if isinstance(a, ast.Name) and a.id in mutated:
                         bad_ro = (n, a)
+        # the caller's scope IS the handler's context parameter (not a fresh, empty one)
+        ctxp = "context" if "context" in gh.params else None
+        if ctxp:
+            rebinds = [st for st in iter_stmts(gh.body) if isinstance(st, ast.Assign) and any(isinstance(t, ast.Name) and t.id == ctxp for t in st.targets)]
+            lost = [st for st in rebinds if ctxp not in names_in(st.value) or (isinstance(st.value, ast.BoolOp) and isinstance(st.value.op, ast.And))]
+            cons_sc = construct_of(gh, "caller-scope-kept")
+            if lost:
+                rep.violation("C13.6", cons_sc, f"`{ast.unparse(lost[0])}` discards the caller's scope: arguments that are parameters of the enclosing macro can no longer be resolved (`macro outer x {{ inner x }}` reports 'Unbound identifier' or the wrong qubit)", f"{gh.path}:{lost[0].lineno}")
+            else:
+                rep.ok("C13.6", cons_sc, "the scope used for resolution is the handler's context parameter (defaulted to {} only when absent)", gh.loc())
         if bad_ro is not None:
             rep.violation("C13.6", cons_ro, f"`{ast.unparse(bad_ro[0])}` resolves a call argument in `{bad_ro[1].id}`, which is being filled with the callee's parameters in the same handler: an argument named like an earlier parameter of the callee resolves to that parameter's binding (`macro inner a b {{ Px b }}; macro outer b a {{ inner b a }}` reports the wrong qubit)", f"{gh.path}:{bad_ro[0].lineno}")
         elif n_res:
